@@ -53,3 +53,28 @@ Proof.
     - destruct (IH g0) as [H|H]; [left; exact H|right; right; exact H]. }
   apply Hall. exact Hin.
 Qed.
+
+From Coq Require Import ZArith.
+From NGF Require Import ngx.Eval ngx.NjsCheck ngx.NjsProofs.
+
+(* ---- inside a location, the njs module decides between the matches that share the path (method, headers, query parameters). The
+   model of nginx/modules/src/httpmatches.js (ngx/Eval.v, compared with the real module under node on every run) picks, for EVERY
+   request and every well-formed list of matches, the first match the request satisfies in the sense of the specification
+   (k8s/Spec.v header_ok / query_ok: header names case-insensitive, value among the comma-separated values; the first occurrence of a
+   query parameter has exactly the value), and answers 404 when there is none. The order of the list is the priority order
+   (C14_match_order_is_the_priority_order). *)
+Theorem C02_njs_module_picks_first_satisfied_match :
+  forall tbl k q k' m0 ms,
+  k <> EmptyString -> find (fun e => seqb (fst e) k) tbl = Some (k', m0 :: ms) -> forallb wf_match (m0 :: ms) = true ->
+  njs_redirect tbl (Some k) q =
+    match find (spec_satisfies q) (m0 :: ms) with
+    | Some m => match jm_redirect m with Some p => NjsRedirect p | None => NjsStatus 500%Z end
+    | None => NjsStatus 404%Z
+    end.
+Proof. exact njs_module_picks_first_satisfied_match. Qed.
+
+Theorem C02_njs_module_never_fails_on_wellformed_matches :
+  forall tbl k q k' m0 ms,
+  k <> EmptyString -> find (fun e => seqb (fst e) k) tbl = Some (k', m0 :: ms) -> forallb wf_match (m0 :: ms) = true ->
+  njs_redirect tbl (Some k) q <> NjsStatus 500%Z.
+Proof. exact njs_module_never_500_on_wellformed. Qed.
